@@ -218,6 +218,28 @@ def c06_r2(ctx):
                         A.eq(keeps[0].targets[0], "unchanged_segments")
                         keep = A.name("unchanged_segments")
                         roles_ok = True
+            split_form = False
+            if not excl and not slice_form and len(mloops) == 1 and isinstance(mloops[0].iter, ast.Name):
+                # third idiom: the merged list is the prefix S[:E] and the kept list the suffix S[E:] of ONE list S at ONE index
+                # expression E -- a partition whatever E is; S is the sorted copy of the input
+                defs = norm.assigned_names(f.node)
+                mname = mloops[0].iter.id
+                mdef = [v for v in defs.get(mname, []) if v is not None]
+                rets_names = [r.value.id for r in returns_of(f) if isinstance(r.value, ast.Name) and r.value.id != "segments"]
+                if len(mdef) == 1 and isinstance(mdef[0], ast.Subscript) and isinstance(mdef[0].slice, ast.Slice) \
+                        and mdef[0].slice.lower is None and mdef[0].slice.step is None and mdef[0].slice.upper is not None and len(set(rets_names)) == 1:
+                    kdef = [v for v in defs.get(rets_names[0], []) if v is not None]
+                    if len(kdef) == 1 and isinstance(kdef[0], ast.Subscript) and isinstance(kdef[0].slice, ast.Slice) \
+                            and kdef[0].slice.upper is None and kdef[0].slice.step is None and kdef[0].slice.lower is not None \
+                            and norm.canon(kdef[0].value) == norm.canon(mdef[0].value) \
+                            and norm.deep_canon(kdef[0].slice.lower, f.node) == norm.deep_canon(mdef[0].slice.upper, f.node) \
+                            and norm.deep_canon(mdef[0].value, f.node).startswith("sorted(segments"):
+                        split_form = True
+                        slice_form = True
+                        roles_ok = True
+                        keep, mrg = rets_names[0], mname
+                        A.eq(ast.Name(id=keep, ctx=ast.Load()), "unchanged_segments")
+                        A.eq(ast.Name(id=mrg, ctx=ast.Load()), "segments_to_merge")
             ctx.ob(f, excl or slice_form, "each segment goes to exactly one of unchanged_segments / segments_to_merge", detail=str(apps))
             # merged ones are the ones passed to add_reader; return unchanged (or everything when nothing is merged)
             fa_ret = {}
@@ -238,7 +260,7 @@ def c06_r2(ctx):
                 srt.append(norm.canon(e))
                 inner = [c for c in norm.calls_in(e) if norm.call_name(c) == "sorted" and c.args and norm.canon(c.args[0]) == "segments"]
                 ok = ok or bool(inner)
-            ctx.ob(f, len(ploops) == 1 and ok, "the partition ranges over all input segments", detail=str(srt))
+            ctx.ob(f, (len(ploops) == 1 and ok) or split_form, "the partition ranges over all input segments", detail=str(srt))
     cm = prog.method("writing.SegmentWriter", "commit", inherited=False)
     F = pm.Alpha(cm)
     sts = pm.stmts_of(cm.node)
